@@ -37,7 +37,7 @@ class Job:
     name: str                  # Cxx/<function>[/<config>]
     fn: str                    # "contracts.C16:job_encode"
     kwargs: dict = field(default_factory=dict)
-    timeout_s: float = 120.0
+    timeout_s: float = 600.0
     prop: str = ""
     weight: float = 1.0        # scheduling hint: heavy jobs first
 
